@@ -1673,7 +1673,22 @@ class WcParse(Generic[AnyStr]):
             self.root(p, result)
 
         if p and (self.matchbase or self.extmatchbase):
-            result = prepend + result
+            # If the pattern itself starts with a `globstar`, an implicit one in front of it is redundant
+            # (`**/**/x` is `**/x`), and as the two are parsed separately they would not be merged: don't add it.
+            # A `globstar` that follows symlinks (no capture group) wins over one that does not.
+            sep = _GLOBSTAR_DIV.format(self.sep)
+            gstars = (self.path_gstar_dot1, self.path_gstar_dot2)
+            index = prepend.index(sep) - 1
+            if (
+                len(result) > index + 1 and
+                result[:index] == prepend[:index] and
+                result[index + 1] == sep and
+                (result[index] in gstars or (result[index][:1] == '(' and result[index][1:-1] in gstars))
+            ):
+                if result[index] not in gstars and prepend[index] in gstars:
+                    result[index] = prepend[index]
+            else:
+                result = prepend + result
 
         case_flag = 'i' if not self.case_sensitive else ''
         pattern = Rf'^(?s{case_flag}:{"".join(result)})$'
